@@ -106,6 +106,17 @@ def run_case(case):
     ccls = "c0" if cy == 0 and cx == 0 else "c1ax" if cy == 0 or cx == 0 else "c2"
     sig = "|".join(map(str, [aspect, acls, ccls, tol, "crop" if case["crop"] else "full",
                              dtype.name, "v%d" % (case["prior"] % 4)]))
+    if case["prior"] % 5 < 2:
+        # history: an earlier call in this process with the same image shape but another
+        # calibration region / crop setting (nothing derived from the arguments may be
+        # remembered under a key that leaves some of them out)
+        try:
+            _CALLS[0] = 0
+            mr.poisson((ny, nx), 3.0, calib=((cy + 10) % 20, (cx + 6) % 20),
+                       crop_corner=not case["crop"], seed=case["seed"] + 7, tol=1.0)
+        except (ValueError, PoissonAbort):
+            pass
+        st0 = np.random.get_state()
     _CALLS[0] = 0
     try:
         mask = mr.poisson(shape_arg, accel_arg, **kw)
